@@ -172,8 +172,9 @@ Definition send_config_info_to (r:rnode) (i dst:Z) (tp:bool) : rnode * list even
   let '(r1, ev, ok) := rsend r m i in
   let x := get_devx r1 i in
   (set_pending r1 i (x_pend_claim x) (x_pend_prod x) (if ok then sched_disabled (w64 r1) else pend_sched r1 (dev_src r1 i) 10), ev).
-(* SendHeartbeat(iDev): sequence counter 0xff *)
+(* SendHeartbeat(iDev): sequence counter 0xff; nothing on a node that is not an active bus device *)
 Definition send_heartbeat_forced (r:rnode) (i:Z) : rnode * list event :=
+  if negb (is_active_node (rn r)) then (r, []) else
   let r := chk_dev r i in
   let '(r1, ev, _) := rsend r (heartbeat_msg (dev_src r i) (ss_period (x_hb (get_devx r i))) 255) i in (r1, ev).
 (* SetDeviceInformationInstances(lower, upper, system, iDev); 255 = keep *)
